@@ -263,6 +263,147 @@ func (e *Engine) structural(spec string) (bool, string) {
 			return false, "no initialiser found for " + parts[2]
 		}
 		return true, "pattern literal as expected"
+	case "fields-confined":
+		// fields-confined|<pkg name>|<Type.field,...>|<allowed function keys,...>
+		//     every access (address-of or value read) to one of the fields made by any function of the package occurs
+		//     in one of the allowed functions (the ones under contract, where the guarded-by obligations are generated).
+		if len(parts) != 4 {
+			return false, "bad spec"
+		}
+		fields := map[string]bool{}
+		for _, c := range strings.Split(parts[2], ",") {
+			fields[strings.TrimSpace(c)] = true
+		}
+		allowed := map[string]bool{}
+		for _, c := range strings.Split(parts[3], ",") {
+			if c = strings.TrimSpace(c); c != "" {
+				allowed[c] = true
+			}
+		}
+		var bad []string
+		n := 0
+		for key, fn := range e.funcs {
+			pk := fnPackage(fn)
+			if pk == nil || pkgKey(pk) != parts[1] || fn.Blocks == nil {
+				continue
+			}
+			for _, b := range fn.Blocks {
+				for _, ins := range b.Instrs {
+					var st *types.Struct
+					var owner types.Type
+					idx := -1
+					switch x := ins.(type) {
+					case *ssa.FieldAddr:
+						owner = deref(x.X.Type())
+						idx = x.Field
+					case *ssa.Field:
+						owner = x.X.Type()
+						idx = x.Field
+					}
+					if idx < 0 {
+						continue
+					}
+					st, _ = owner.Underlying().(*types.Struct)
+					nt, _ := types.Unalias(owner).(*types.Named)
+					if st == nil || nt == nil {
+						continue
+					}
+					name := nt.Obj().Name() + "." + st.Field(idx).Name()
+					if !fields[name] {
+						continue
+					}
+					n++
+					if !allowed[key] {
+						bad = append(bad, key+" touches "+name)
+					}
+				}
+			}
+		}
+		if len(bad) > 0 {
+			sort.Strings(bad)
+			return false, strings.Join(dedupe(bad), "; ")
+		}
+		if n == 0 {
+			return false, "no access to the listed fields found (vacuous)"
+		}
+		return true, fmt.Sprintf("%d accesses, all in audited functions", n)
+	case "go-confined":
+		// go-confined|<pkg name>|<allowed function keys,...>: every go statement of the package is in an allowed function
+		if len(parts) != 3 {
+			return false, "bad spec"
+		}
+		allowed := map[string]bool{}
+		for _, c := range strings.Split(parts[2], ",") {
+			if c = strings.TrimSpace(c); c != "" {
+				allowed[c] = true
+			}
+		}
+		var bad []string
+		n := 0
+		for key, fn := range e.funcs {
+			pk := fnPackage(fn)
+			if pk == nil || pkgKey(pk) != parts[1] || fn.Blocks == nil {
+				continue
+			}
+			for _, b := range fn.Blocks {
+				for _, ins := range b.Instrs {
+					if _, ok := ins.(*ssa.Go); ok {
+						n++
+						if !allowed[key] {
+							bad = append(bad, key)
+						}
+					}
+				}
+			}
+		}
+		if len(bad) > 0 {
+			sort.Strings(bad)
+			return false, "go statement in " + strings.Join(dedupe(bad), ", ")
+		}
+		if n == 0 {
+			return false, "no go statement found (vacuous)"
+		}
+		return true, fmt.Sprintf("%d go statements, all in audited functions", n)
+	case "defer-close-first":
+		// defer-close-first|<function key>: the first effectful instruction of the function registers `defer close(ch)` and the
+		// function closes nothing else - so every other statement (and every later defer) runs before the channel is closed
+		if len(parts) != 2 {
+			return false, "bad spec"
+		}
+		fn := e.funcs[strings.TrimSpace(parts[1])]
+		if fn == nil || len(fn.Blocks) == 0 {
+			return false, "no such function: " + parts[1]
+		}
+		first := true
+		closes := 0
+		ok := false
+		for _, b := range fn.Blocks {
+			for _, ins := range b.Instrs {
+				switch x := ins.(type) {
+				case *ssa.DebugRef, *ssa.FieldAddr, *ssa.UnOp, *ssa.Field:
+					continue
+				case *ssa.Defer:
+					if bi, isB := x.Call.Value.(*ssa.Builtin); isB && bi.Name() == "close" {
+						closes++
+						if first && b.Index == 0 {
+							ok = true
+						}
+					}
+				case ssa.CallInstruction:
+					if bi, isB := x.Common().Value.(*ssa.Builtin); isB && bi.Name() == "close" {
+						closes++
+					}
+				}
+				first = false
+			}
+		}
+		if !ok {
+			return false, "the function does not begin with `defer close(...)`"
+		}
+		if closes != 1 {
+			return false, fmt.Sprintf("%d close operations in the function, expected exactly the deferred one", closes)
+		}
+		return true, "begins with defer close(ch); no other close"
 	case "under-contract":
 		for _, k := range strings.Split(parts[1], ",") {
 			k = strings.TrimSpace(k)
@@ -282,4 +423,14 @@ func fnPackage(fn *ssa.Function) *types.Package {
 		}
 	}
 	return nil
+}
+
+func dedupe(xs []string) []string {
+	var out []string
+	for i, x := range xs {
+		if i == 0 || x != xs[i-1] {
+			out = append(out, x)
+		}
+	}
+	return out
 }
